@@ -9,15 +9,113 @@ class C15(PropCheck):
     header = 'From Coq Require Import List NArith Bool.\nFrom Elfi Require Import Base.Harness Num.Seed.\nImport ListNotations.\n'
     case_type = 'Seed.case'
     preds = (('Seed.agree', 'agree'), ('Seed.ok', 'ok'))
-    chunk = 250
+    chunk = 150
     rule = ('histories of get_sub_seed(seed, idx, high, cache) sharing one dict cache (or cache=None), index patterns '
-            'increasing/repeated/decreasing/jumping/out-of-range, high in {1..8,16,2**31,2**32}; non-trivial = history with '
-            '>=2 served requests whose stream prefix contains a repeated value before the last needed draw (collision forced) '
-            'or which re-enters the cache after a smaller index; distinct by (seed, high, reqs)')
+            'increasing/repeated/decreasing/jumping/consecutive/out-of-range over three families: (i) high in {1..8,16,2**31,2**32} '
+            'with indices <= 40 (collisions forced by the tiny range), (ii) large ranges 2**10..2**32 (2**31 weighted) with the '
+            'indices placed around the first three repeated draws of the master seed\'s raw stream (located with numpy; index '
+            '~1e2 for 2**12 up to ~1e5 for 2**31/2**32), (iii) nearly exhausted medium ranges high in 50..6000 with the indices in '
+            'the last 1..10 values below high (thousands of loop passes per call); every answer of every case is compared '
+            'python-side with an independent numpy reference of the spec (value at the (idx+1)-th first appearance; theorem '
+            'C15_first_appearance) and must be in range, pairwise distinct and rejected iff idx >= high; cases whose stream '
+            'prefix fits a Coq literal additionally go through Seed.agree/Seed.ok, where the reference itself is checked against '
+            'Seed.spec; non-trivial = history with >=2 served requests whose stream prefix contains a repeated value before the '
+            'last needed draw or which re-enters the cache after a smaller index; distinct by (seed, high, reqs)')
+    case_timeout = 300
     trusted = ('numpy: RandomState(seed).randint(high,size=a,dtype=uint32) followed by size=b continues the stream of one call of size=a+b (re-tested on every case)',)
 
     def generate(self):
-        n = 500 if self.tier == 'quick' else 6000
+        quick = self.tier == 'quick'
+        for c in self._gen_small(500 if quick else 6000):
+            yield c
+        for c in self._gen_natural(48 if quick else 500, 2 if quick else 12):
+            yield c
+        for c in self._gen_tail(40 if quick else 420):
+            yield c
+
+    def _seed(self):
+        r = self.rng
+        return r.choice([0, 1, 2, r.randrange(2 ** 32), r.randrange(2 ** 32), r.randrange(1000), 2 ** 32 - 1 - r.randrange(16)])
+
+    def _gen_natural(self, n, n_full):
+        """(ii) large ranges: requests around the first repeated draws of the raw stream of (seed, high).  The positions are
+        located with numpy only to CHOOSE indices; what the answers must be is decided by the reference / the Coq spec."""
+        r = self.rng
+        for k in range(n):
+            high = r.choice([2 ** 12, 2 ** 16, 2 ** 16, 2 ** 20, 2 ** 24, 2 ** 31, 2 ** 31, 2 ** 31, 2 ** 31, 2 ** 32,
+                             2 ** r.randint(10, 32), r.randrange(2 ** 10, 2 ** 32)])
+            seed = self._seed()
+            K = 300000 if high > 2 ** 24 else 60000
+            raw = np.random.RandomState(seed).randint(high, size=K, dtype='uint32')
+            vals, first = np.unique(raw, return_index=True)
+            isfirst = np.zeros(K, dtype=bool)
+            isfirst[first] = True
+            dups = [int(d) for d in np.flatnonzero(~isfirst)[:3]]
+            cand = {0, r.randrange(min(high, K))}
+            for j, d in enumerate(dups):
+                p = int(first[np.searchsorted(vals, raw[d])])      # where the repeated value was drawn first
+                cand.update(range(d - j - 2, d - j + 3))
+                cand.update(range(p - 2, p + 2))
+            if not dups:
+                cand.update(r.randrange(min(high, K)) for _ in range(4))
+            cand = sorted(i for i in cand if 0 <= i < high)
+            d1 = dups[0] if dups else cand[-1]
+            pat = r.choice(['unc', 'unc', 'jump', 'consec', 'dec', 'mixed'])
+            if k < n_full and d1 < 150000:
+                pat = 'full'
+            pick = r.sample(cand, min(len(cand), r.randint(2, 8)))
+            if pat == 'unc':
+                reqs = [[i, False] for i in pick]
+            elif pat == 'jump':
+                reqs = [[i, True] for i in sorted(pick)]
+            elif pat == 'consec':
+                a = max(d1 - r.randint(2, 6), 0)
+                reqs = [[a, min(d1 + r.randint(2, 6), high), 1, True]] + [[i, False] for i in pick[:3]]
+            elif pat == 'dec':
+                reqs = [[i, True] for i in sorted(pick, reverse=True)]
+            elif pat == 'mixed':
+                reqs = [[i, r.random() < 0.5] for i in pick]
+            else:
+                reqs = [[0, min(d1 + 4, high), 1, True]] + [[i, r.random() < 0.5] for i in pick[:4]]
+            self.bump('family=natural-collision')
+            self.bump('natural.pattern=' + pat)
+            self.bump('natural.high=2^%d' % (high.bit_length() - 1))
+            self.bump('natural.first_collision_index~1e%d' % (len(str(d1)) - 1) if dups else 'natural.no_collision_found')
+            yield dict(seed=seed, high=high, reqs=reqs)
+
+    def _gen_tail(self, n):
+        """(iii) nearly exhausted medium ranges: the last indices below high need very many passes of the loop"""
+        r = self.rng
+        for _ in range(n):
+            high = r.choice([50, 64, 100, 128, 200, 256, 300, 1000, 1500, 2000, 3000, 4096, 6000]
+                            + [int(50 * 120 ** r.random()) for _ in range(13)])
+            seed = self._seed()
+            w = r.randint(1, 10)
+            tail = list(range(high - w, high))
+            pat = r.choice(['unc', 'unc', 'consec', 'jump', 'dec', 'mixed', 'oor'])
+            if pat == 'unc':
+                reqs = [[i, False] for i in r.sample(tail, w)]
+            elif pat == 'consec':
+                reqs = [[0, high, 1, True]] + [[i, False] for i in r.sample(tail, min(3, w))]
+            elif pat == 'jump':
+                reqs = [[r.choice([0, 0, high // 2]), True]] + [[i, True] for i in tail[::r.randint(1, 3)]]
+            elif pat == 'dec':
+                reqs = [[i, True] for i in reversed(tail)] + [[tail[-1], r.random() < 0.5]]
+            elif pat == 'mixed':
+                idxs = tail + [r.randrange(high) for _ in range(r.randint(0, 3))]
+                r.shuffle(idxs)
+                reqs = [[i, r.random() < 0.6] for i in idxs]
+            else:
+                idxs = tail[-2:] + [high, high + 1, high + r.randint(0, 5)]
+                r.shuffle(idxs)
+                reqs = [[i, r.random() < 0.5] for i in idxs]
+            self.bump('family=nearly-exhausted')
+            self.bump('tail.pattern=' + pat)
+            self.bump('tail.high~%s' % ('<=300' if high <= 300 else '<=1500' if high <= 1500 else '<=6000'))
+            self.bump('tail.width=%d' % w)
+            yield dict(seed=seed, high=high, reqs=reqs)
+
+    def _gen_small(self, n):
         r = self.rng
         for _ in range(n):
             high = r.choice([1, 2, 3, 4, 5, 6, 7, 8, 8, 16, 2 ** 31, 2 ** 31, 2 ** 32])
@@ -41,16 +139,45 @@ class C15(PropCheck):
                         else r.choice([high, r.randint(0, top)]) for _ in range(m)]
             pc = r.choice([1.0, 1.0, 0.7, 0.0])
             reqs = [[i, r.random() < pc] for i in idxs]
+            self.bump('family=tiny-range-or-small-index')
             self.bump('pattern=' + pat)
             self.bump('high=%s' % (high if high < 100 else 'big'))
             yield dict(seed=seed, high=high, reqs=reqs)
+
+    @staticmethod
+    def _reqs(case):
+        """a request is [idx, use_cache]; [a, b, step, use_cache] abbreviates the consecutive requests range(a, b, step)"""
+        out = []
+        for e in case['reqs']:
+            if len(e) == 2:
+                out.append((int(e[0]), bool(e[1])))
+            else:
+                out.extend((i, bool(e[3])) for i in range(int(e[0]), int(e[1]), int(e[2])))
+        return out
+
+    REF_CAP = 1 << 23
+
+    @classmethod
+    def _reference(cls, seed, high, need):
+        """independent statement of the spec with numpy: raw stream prefix and the sorted raw positions of the first
+        appearances in it (the sub seed of index i is raw[pos[i]], theorem C15_first_appearance); at least `need` of them
+        unless the cap is hit"""
+        K = max(64, 2 * need)
+        while True:
+            raw = np.random.RandomState(seed).randint(high, size=K, dtype='uint32')
+            _, first = np.unique(raw, return_index=True)
+            if len(first) >= need or K >= cls.REF_CAP:
+                break
+            K *= 2
+        return raw, np.sort(first)
 
     def run_impl(self, case):
         from elfi.utils import get_sub_seed
         cache = {}
         answers = []
         used = False
-        for idx, uc in case['reqs']:
+        reqs = self._reqs(case)
+        for idx, uc in reqs:
             try:
                 v = get_sub_seed(case['seed'], idx, high=case['high'], cache=cache if uc else None)
                 answers.append(int(v))
@@ -59,18 +186,21 @@ class C15(PropCheck):
             except Exception as e:  # a servable request must be served: any other exception fails the property
                 answers.append('crash: %s: %s' % (type(e).__name__, e))
             used = used or uc
-        seen = sorted(int(x) for x in cache.get('seen', []))
-        # the stream the model is fed: long enough prefix of the same generator
         high = case['high']
-        need = max([i for i, _ in case['reqs'] if i < high] + [0]) + 1
-        K = 16
-        while True:
-            stream = [int(x) for x in np.random.RandomState(case['seed']).randint(high, size=K, dtype='uint32')]
-            if len(set(stream)) >= need or K > 4000:
-                break
-            K *= 2
-        stream = stream + [int(x) for x in np.random.RandomState(case['seed']).randint(high, size=K + 8, dtype='uint32')][K:]
-        return dict(answers=answers, seen=seen, stream=stream)
+        need = max([i for i, _ in reqs if i < high] + [0]) + 1
+        raw, pos = self._reference(case['seed'], high, need)
+        ref = [None if i >= high else (int(raw[pos[i]]) if i < len(pos) else 'unavailable') for i, _ in reqs]
+        # L: length of the shortest stream prefix holding `need` distinct values (the real loop never draws beyond it)
+        L = int(pos[need - 1]) + 1 if need <= len(pos) else len(raw)
+        # does the case fit a Coq literal and the list-based model's running time?  (else the python-side clauses decide)
+        coq = (need <= 3500 and L + 8 <= 5000 and len(reqs) <= 400 and len(reqs) * L * min(need, L) <= 15 * 10 ** 6
+               and 'unavailable' not in ref)
+        # the stream the model is fed: the prefix of the same generator that is needed, plus a few more draws
+        stream = [int(x) for x in np.random.RandomState(case['seed']).randint(high, size=max(L + 8, 24) if coq else 24,
+                                                                               dtype='uint32')]
+        seen_n = len(cache.get('seen', []))
+        seen = sorted(int(x) for x in cache.get('seen', [])) if coq else []
+        return dict(answers=answers, ref=ref, seen=seen, seen_n=seen_n, stream=stream, need=need, prefix_len=L, coq=coq)
 
     def _prepare_seed_schedule(self, case):
         """the derived seed of (batch generator, row) through elfi.model.tools.prepare_seed must not depend on what was
@@ -90,40 +220,95 @@ class C15(PropCheck):
                     g, row, int(kw['seed']), sched, int(expect))
         return None
 
+    def _prepare_seed_large(self, case, out, reqs):
+        """elfi.model.tools.prepare_seed derives the seed of row i of a batch without a cache and with the default range:
+        for the rows of this case (large ones included) it must hand out the reference value"""
+        if case['high'] != 2 ** 31:
+            return None
+        from elfi.model.tools import prepare_seed
+        done = set()
+        for (idx, _), w in zip(reqs[-6:], out['ref'][-6:]):
+            if idx >= case['high'] or idx in done or not isinstance(w, int):
+                continue
+            done.add(idx)
+            rs = np.random.RandomState(case['seed'])
+            if int(rs.get_state()[1][0]) != case['seed']:
+                return None
+            _, kw = prepare_seed(random_state=rs, index_in_batch=idx)
+            if int(kw['seed']) != w:
+                return ('prepare_seed(RandomState(%d), index_in_batch=%d) gave %d, the value of the stream at its %d-th first '
+                        'appearance is %d' % (case['seed'], idx, int(kw['seed']), idx + 1, w))
+        return None
+
     def py_check(self, case, out):
         bad = self._prepare_seed_schedule(case)
         if bad:
             return [('prepare_seed_history', bad)]
-        for (idx, uc), a in zip(case['reqs'], out['answers']):
+        reqs = self._reqs(case)
+        high = case['high']
+        for (idx, uc), a in zip(reqs, out['answers']):
             if isinstance(a, str):
                 return [('served_or_rejected', 'request idx=%d cache=%s neither served nor rejected: %s' % (idx, uc, a))]
+        # the property on every case, large indices and ranges included, against the numpy reference of the spec
+        first_of = {}
+        for k, ((idx, uc), a, w) in enumerate(zip(reqs, out['answers'], out['ref'])):
+            how = 'request #%d idx=%d cache=%s (seed=%d high=%d)' % (k, idx, uc, case['seed'], high)
+            if idx >= high:
+                if a is not None:
+                    return [('rejected_iff_out_of_range', '%s: an index that cannot be served was answered with %r' % (how, a))]
+                continue
+            if a is None:
+                return [('rejected_iff_out_of_range', '%s: a servable index was rejected' % how)]
+            if not 0 <= a < high:
+                return [('in_range', '%s: answer %d outside [0, high)' % (how, a))]
+            if w == 'unavailable':
+                self.notes.append('reference unavailable for %s' % how)
+            elif a != w:
+                return [('depends_only_on_seed_and_index', '%s: answer %d, but the value of the stream at its %d-th first '
+                         'appearance is %d (raw stream prefix of %d draws)' % (how, a, idx + 1, w, out['prefix_len']))]
+            if first_of.setdefault(a, idx) != idx:
+                return [('distinct', '%s: indices %d and %d both received %d' % (how, first_of[a], idx, a))]
+        bad = self._prepare_seed_large(case, out, reqs)
+        if bad:
+            return [('prepare_seed_large_row', bad)]
         # support test of the stream assumption: chunked draws = one draw
         rs = np.random.RandomState(case['seed'])
         a = self.rng.randint(1, 5)
         chunks = list(rs.randint(case['high'], size=a, dtype='uint32')) + list(rs.randint(case['high'], size=7, dtype='uint32'))
         if [int(x) for x in chunks] != out['stream'][:a + 7]:
             return [('stream_assumption', 'chunked randint differs from a single call')]
+        # the same for a split deep inside the prefix the reference was computed from (one call of the whole size)
+        b = min(out['prefix_len'], 200000)
+        rs = np.random.RandomState(case['seed'])
+        two = np.concatenate([rs.randint(case['high'], size=b, dtype='uint32'), rs.randint(case['high'], size=7, dtype='uint32')])
+        one = np.random.RandomState(case['seed']).randint(case['high'], size=b + 7, dtype='uint32')
+        if not np.array_equal(one, two):
+            return [('stream_assumption', 'randint in chunks of %d and 7 differs from a single call of %d' % (b, b + 7))]
         return []
 
     def nontrivial(self, case, out):
         served = [a for a in out['answers'] if isinstance(a, int)]
         if len(served) < 2:
             return None
-        idxs = [i for i, _ in case['reqs']]
-        collision = len(set(out['stream'][:len(out['seen']) + 1])) < len(out['stream'][:len(out['seen']) + 1]) if out['seen'] else False
+        idxs = [i for i, _ in self._reqs(case)]
+        collision = out['prefix_len'] > out['need']      # a repeated value before the last needed draw
         reenter = any(idxs[k] < idxs[k - 1] for k in range(1, len(idxs)))
         if not (collision or reenter):
             return None
         return json.dumps([case['seed'], case['high'], case['reqs']])
 
     def to_coq(self, case, out):
-        if max(i for i, _ in case['reqs']) >= 4000 or any(isinstance(a, str) for a in out['answers']):
-            # nat index too large for the Coq side: only the python-side check applies (rejected path)
+        rq = self._reqs(case)
+        if max(i for i, _ in rq) >= 4000 or not out['coq'] or any(isinstance(a, str) for a in out['answers']):
+            # nat index / stream prefix too large for the Coq side: the python-side clauses (reference) decide
+            self.bump('coq_side=no')
             return None
-        reqs = clist(['(%s, %s)' % (cnat(i), cbool(u)) for i, u in case['reqs']])
-        return ('{| c_stream := %s; c_high := %s; c_reqs := %s; c_impl := %s; c_impl_seen := %s |}'
+        self.bump('coq_side=yes')
+        reqs = clist(['(%s, %s)' % (cnat(i), cbool(u)) for i, u in rq])
+        return ('{| c_stream := %s; c_high := %s; c_reqs := %s; c_impl := %s; c_impl_seen := %s; c_ref := %s |}'
                 % (clist([cn(x) for x in out['stream']]), cn(case['high']), reqs,
-                   clist([copt(a, cn) for a in out['answers']]), clist([cn(x) for x in out['seen']])))
+                   clist([copt(a, cn) for a in out['answers']]), clist([cn(x) for x in out['seen']]),
+                   clist([copt(a, cn) for a in out['ref']])))
 
 
 if __name__ == '__main__':
